@@ -600,7 +600,13 @@ func buildReal(s realScenario) *renv {
 			e.emus = append(e.emus, c)
 			real, ctrl = c, c.ControlPort()
 		case "timing":
-			c := cu.MakeBuilder().WithEngine(e.engine).WithFreq(e.freq).Build("TCU" + itoa(i))
+			tb := cu.MakeBuilder().WithEngine(e.engine).WithFreq(e.freq)
+			if s.Adv.Preset == "mi300a" {
+				// the register file / wavefront pools timingconfig/mi300a gives its compute units; the figures
+				// reach the CP through an adapter there as well (the CU's own methods report the r9nano shape)
+				tb = tb.WithWfPoolSize(8).WithVGPRCount([]int{32768, 32768, 32768, 32768})
+			}
+			c := tb.Build("TCU" + itoa(i))
 			im := newInstMem("IMem"+itoa(i), e.engine, e.freq, img, max(1, s.InstLat))
 			simkit.Connect(e.engine, e.freq, "ConnI"+itoa(i), c.ToInstMem, im.port)
 			c.InstMem = im.port
